@@ -270,7 +270,9 @@ func c18Run(c *core.Ctx) {
 	}
 	// ---- wordlist recipes over secret glyphs
 	wlT := []WLCase{}
-	for _, ws := range [][]string{{"ab", "cd"}, {"ab", "cd", "abd"}, {"ab", "ab", "cd"}, {"a", "b", "c", "d", "a", "a"}} {
+	for _, ws := range [][]string{{"ab", "cd"}, {"ab", "cd", "abd"}, {"ab", "ab", "cd"}, {"a", "b", "c", "d", "a", "a"},
+		// words starting with letters whose case mapping is unusual (dotless i, long s, sharp s, a digraph)
+		{"ıab", "ſcd"}, {"ßab", "ǆcd", "ıd"}} {
 		wls := []int{1, 2}
 		if c.Thorough() {
 			wls = []int{1, 2, 3}
